@@ -153,7 +153,49 @@ def emit() -> str:
             and [ast.unparse(s) for s in after[0].body] == ["best_route = self.default_route"] and not after[0].orelse
             and ast.unparse(after[1]) == "return best_route"):
         raise ValueError("find_best_route: unexpected default-route fallback")
+    # --- find_best_route is a FUNCTION of (self.routes, self.default_route, destination): it reads no other attribute, writes none, calls
+    # no method of the table; the table has no further state a look-up could consult (a memo would be a new field); the only writers
+    # are add_route (append) and set_default_route_next_hop_ip_address (assign default_route)
+    rt_cls = class_def(tree, "RouteTable")
+    fields = sorted(ast.unparse(st.target) for st in rt_cls.body if isinstance(st, ast.AnnAssign))
+    if fields != ["default_route", "routes", "sys_log"]:
+        raise ValueError(f"RouteTable: unexpected fields {fields} (a new field is new state a look-up may depend on: model it)")
+    methods = sorted(n.name for n in rt_cls.body if isinstance(n, ast.FunctionDef))
+    if methods != ["add_route", "describe_state", "find_best_route", "set_default_route_next_hop_ip_address", "show"]:
+        raise ValueError(f"RouteTable: unexpected methods {methods} (a new writer of the table must be modelled)")
+
+    def self_reads(fn):
+        return sorted({n.attr for n in ast.walk(fn) if isinstance(n, ast.Attribute) and isinstance(n.value, ast.Name) and n.value.id == "self"})
+
+    def self_writes(fn):
+        out = []
+        for n in ast.walk(fn):
+            tg = []
+            if isinstance(n, ast.Assign):
+                tg = n.targets
+            elif isinstance(n, (ast.AugAssign, ast.AnnAssign)):
+                tg = [n.target]
+            elif isinstance(n, ast.Delete):
+                tg = n.targets
+            for t in tg:
+                if "self" in {x.id for x in ast.walk(t) if isinstance(x, ast.Name)}:
+                    out.append(ast.unparse(t))
+            if isinstance(n, ast.Call) and ast.unparse(n.func).startswith("self.") and not ast.unparse(n.func).startswith("self.sys_log."):
+                out.append(ast.unparse(n.func) + "()")
+            if isinstance(n, (ast.Global, ast.Nonlocal)):
+                out.append("global")
+        return sorted(out)
+    fbr_pure = self_reads(fbr) == ["default_route", "routes"] and self_writes(fbr) == []
+    if not fbr_pure:
+        raise ValueError(f"find_best_route reads {self_reads(fbr)} and writes/calls {self_writes(fbr)}: not a function of routes/default_route")
+    for dec_ in fbr.decorator_list:
+        raise ValueError(f"find_best_route is decorated ({ast.unparse(dec_)}): a cache?")
+    sdr = find_method(rt_cls, "set_default_route_next_hop_ip_address")
+    if self_writes(sdr) != ["self.default_route", "self.default_route.next_hop_ip_address"]:
+        raise ValueError(f"set_default_route_next_hop_ip_address writes {self_writes(sdr)}")
     add = find_method(class_def(tree, "RouteTable"), "add_route")
+    if self_writes(add) != ["self.routes.append()"]:
+        raise ValueError(f"add_route writes {self_writes(add)}")
     appends = [ast.unparse(n) for n in ast.walk(add) if isinstance(n, ast.Call) and ast.unparse(n.func).startswith("self.routes.")]
     if appends != ["self.routes.append(route)"]:
         raise ValueError(f"add_route does not simply append: {appends}")
@@ -246,6 +288,52 @@ def emit() -> str:
     else:
         raise ValueError("resolve_outbound_network_interface: unrecognised statements between the loop and the fallback")
 
+    # --- what the ranking argument of the termination proof (Props/C08Termination.lean) rests on
+    # (1) Firewall._process_dmz_outbound_frame: a layer-2 broadcast that is not for the firewall is dropped BEFORE the look-ups
+    fw_tree = parse("simulator/network/hardware/nodes/network/firewall.py")
+    dmz = find_method(class_def(fw_tree, "Firewall"), "_process_dmz_outbound_frame")
+    hand = [s2 for s2 in dmz.body if isinstance(s2, ast.If) and "check_send_frame_to_session_manager" in ast.unparse(s2.test)]
+    if len(hand) != 1 or not hand[0].orelse:
+        raise ValueError("_process_dmz_outbound_frame: hand-over `if self.check_send_frame_to_session_manager(frame): ... else: ...` not found")
+    els = hand[0].orelse
+    lookups = [k2 for k2, s2 in enumerate(els) if "get_arp_cache_network_interface" in ast.unparse(s2) or "find_best_route" in ast.unparse(s2)]
+    if not lookups:
+        raise ValueError("_process_dmz_outbound_frame: no outbound look-up found in the else branch")
+    g0 = els[0]
+    dmz_guard = (isinstance(g0, ast.If) and ast.unparse(g0.test) == "frame.is_broadcast" and len(g0.body) == 1
+                 and isinstance(g0.body[0], ast.Return) and g0.body[0].value is None and not g0.orelse and min(lookups) > 0)
+    # (2) a router resolves its outbound interface without ARP: the base ARP.get_default_gateway_network_interface answers None and
+    # RouterARP does not override it (RouterSessionManager.resolve_outbound_network_interface = local loop + route table only)
+    arp_tree = parse("simulator/system/services/arp/arp.py")
+    gdg = find_method(class_def(arp_tree, "ARP"), "get_default_gateway_network_interface")
+    gdg_body = [s2 for s2 in gdg.body if not (isinstance(s2, ast.Expr) and isinstance(s2.value, ast.Constant))]
+    base_none = len(gdg_body) == 1 and ast.unparse(gdg_body[0]) == "return None"
+    rarp = class_def(tree, "RouterARP")
+    router_inherits = not any(isinstance(n2, ast.FunctionDef) and n2.name in ("get_default_gateway_network_interface", "send_arp_reply", "send_arp_request")
+                              for n2 in rarp.body)
+    rsm = find_method(class_def(tree, "RouterSessionManager"), "resolve_outbound_network_interface")
+    rsm_calls = sorted({ast.unparse(n2.func) for n2 in ast.walk(rsm) if isinstance(n2, ast.Call)})
+    if rsm_calls != ["self.node.route_table.find_best_route", "super", "super().resolve_outbound_network_interface"]:
+        raise ValueError(f"RouterSessionManager.resolve_outbound_network_interface: unexpected calls {rsm_calls}")
+    # (3) replies start nothing: ARP._process_arp_reply only learns, ICMP._process_icmp_echo_reply only counts
+    par = find_method(class_def(arp_tree, "ARP"), "_process_arp_reply")
+    par_calls = sorted({ast.unparse(n2.func) for n2 in ast.walk(par) if isinstance(n2, ast.Call)})
+    reply_learns = par_calls == ["self.add_arp_cache_entry", "self.sys_log.info"]
+    icmp_tree = parse("simulator/system/services/icmp/icmp.py")
+    per = find_method(class_def(icmp_tree, "ICMP"), "_process_icmp_echo_reply")
+    per_calls = sorted({ast.unparse(n2.func) for n2 in ast.walk(per) if isinstance(n2, ast.Call)})
+    echo_counts = per_calls == ["frame.transmission_duration", "len", "self.request_replies.get", "self.sys_log.info"]
+    if not (reply_learns and echo_counts):
+        raise ValueError(f"reply handlers call something new: _process_arp_reply {par_calls}, _process_icmp_echo_reply {per_calls}")
+    # (4) ARP requests are layer-2 broadcasts, ARP replies go to the requester's pair (ARP.send_arp_request / send_arp_reply)
+    sreq = find_method(class_def(arp_tree, "ARP"), "send_arp_request")
+    sreq_txt = ast.unparse(sreq)
+    req_fields = ("sender_ip_address=outbound_network_interface.ip_address" in sreq_txt
+                  and "sender_mac_addr=outbound_network_interface.mac_address" in sreq_txt)
+    srep = find_method(class_def(arp_tree, "ARP"), "send_arp_reply")
+    srep_txt = ast.unparse(srep)
+    rep_to_requester = "dst_ip_address=arp_reply.target_ip_address" in srep_txt
+
     def lst(xs):
         return "[" + ", ".join(f'("{n}", {k})' for n, k in xs) + "]"
     return f"""namespace Primaite.Gen.Forward
@@ -257,6 +345,17 @@ def airTransmitToOtherEnabled : Bool := true
 /-- SessionManager.resolve_outbound_network_interface: first enabled interface whose network contains the destination; else
 `None` when the destination is the default gateway itself (repair F-57); else the gateway's interface from ARP -/
 def gatewayNotViaGateway : Bool := {"true" if gw_guard else "false"}
+/-- Firewall._process_dmz_outbound_frame: `if frame.is_broadcast: return` is the first statement after the hand-over test, before
+`get_arp_cache_network_interface` / `find_best_route` (repair F-C08-r3-1) -/
+def dmzOutboundDropsBroadcastFirst : Bool := {"true" if dmz_guard else "false"}
+/-- a router resolves its outbound interface without ARP: base `ARP.get_default_gateway_network_interface` is `return None`, RouterARP
+does not override it (nor send_arp_request / send_arp_reply), RouterSessionManager.resolve_outbound_network_interface calls only
+the inherited local loop and `find_best_route` -/
+def routerResolvesOutboundWithoutArp : Bool := {"true" if (base_none and router_inherits) else "false"}
+/-- replies start nothing: `_process_arp_reply` = log + `add_arp_cache_entry`; `_process_icmp_echo_reply` = log + count -/
+def repliesStartNothing : Bool := {"true" if (reply_learns and echo_counts) else "false"}
+/-- an ARP request carries the (ip, mac) pair of the interface it leaves by; the reply is addressed to the request's sender -/
+def arpPairsGenuine : Bool := {"true" if (req_fields and rep_to_requester) else "false"}
 /-- `IPPacket.ttl` default -/
 def defaultTtl : Int := {ttl}
 /-- `Frame.decrement_ttl`: `self.ip.ttl -= k` -/
@@ -279,6 +378,10 @@ def ltInf (m : Int) : Option Int → Bool
   | some l => decide (m < l)
 /-- the update test of the loop, translated from `{ast.unparse(upd.test)}` -/
 def better (p l m : Int) (lo : Option Int) : Bool := {cond}
+/-- find_best_route reads only `self.routes` / `self.default_route`, writes nothing, calls no method of the table, is not decorated;
+RouteTable has no field besides routes / default_route / sys_log and no writer besides add_route (append) and
+set_default_route_next_hop_ip_address (assign) -/
+def findBestRouteIsFunctionOfTable : Bool := {"true" if fbr_pure else "false"}
 /-- after the loop: `if not best_route and self.default_route: best_route = self.default_route`; `add_route` appends -/
 def defaultOnlyWithoutBest : Bool := true
 end Primaite.Gen.Forward
